@@ -105,6 +105,7 @@ def run(chk):
         if not evs:
             raise Broken("primary evaluate not instantiated for " + cls)
         check_initial_guess(chk, F, E, cls, gi, roles, members, flags_member, dim, expected_flags, dirty, count_member)
+        check_time_point_overload(chk, F, cls)
         # evaluate(): decode and encode decided on the algebraic summary of each instantiation (evalsum / evalrules):
         # full enumeration of the flag assignments for the first instantiation, all-set / none-set for its siblings
         # (quick tier), full for every instantiation in the thorough tier
@@ -222,6 +223,76 @@ def run(chk):
     chk.floor("C09-R3", 20)
     chk.floor("C09-R5", 8)
     chk.not_decided = ["the round trip of the initial guess additionally needs the time-map inverse (C17) and a user spatial map that honours toPhysical(toUnconstrained(p)) = p"]
+
+
+def check_time_point_overload(chk, F, cls):
+    """the reference problem may be given by absolute time points: that overload must hand the durations overload
+    duration k = point[k+1] - point[k] for every k in [0, #points - 1) and start time = point[0] (otherwise the initial
+    guess decodes to other durations than the reference the caller gave)"""
+    from .c01 import content_pieces
+    fs = [f for f in F.funcs(cls, "setInitState") if f.get("body")]
+    f4 = [f for f in fs if len(f["params"]) == 4]
+    f3 = [f for f in fs if len(f["params"]) == 3 and f["params"][0]["ty"].get("std") == "vector"]
+    if len(f4) != 1 or len(f3) != 1:
+        raise Broken("setInitState overloads (durations / time points) not found in %s" % cls)
+    f4, f3 = f4[0], f3[0]
+    chk.saw(f3)
+    cap = {}
+
+    def on_call(c, e, env, I):
+        if c.get("fid") == f4["fid"]:
+            a0 = e["args"][0]
+            while isinstance(a0, dict) and a0.get("k") in ("cast", "paren", "copy", "implicit") and a0.get("e") is not None:
+                a0 = a0["e"]
+            cap["durations"] = a0
+            cap["start"] = I.ev(e["args"][2], env)
+            cap["n"] = cap.get("n", 0) + 1
+            return sp.Symbol("verdict")
+        ot = ((e.get("obj") or {}).get("t") or {})
+        if ot.get("std") == "basic_string" or "basic_string" in str(ot.get("n")):
+            return None
+        return NotImplemented
+
+    def oracle(s_, c, I):
+        return False        # the guards of this overload reject empty / too short inputs: outside the property's domain
+
+    I = Interp(F, cls, on_call=on_call, branch_oracle=oracle)
+    env = {p["id"]: I.make_value(p["name"], p["ty"]) for p in f3["params"]}
+    try:
+        I.run_body(f3, env)
+    except Unsupported as ex:
+        raise Broken("time-point overload of setInitState not analysable: %s" % ex)
+    if cap.get("n") != 1 or not isinstance(cap.get("durations"), dict) or cap["durations"].get("k") != "var":
+        raise Broken("time-point overload of setInitState does not forward one local duration list to the durations overload")
+    name = cap["durations"]["name"]
+    tp = f3["params"][0]["name"]
+    T = sp.IndexedBase(tp, real=True)
+    size = sp.Symbol(tp + ".size", integer=True, nonnegative=True)
+    kk = sp.Symbol("k_", integer=True, nonnegative=True)
+    ev_list = [e for e in I.effects if e.target == name]
+    loops_d = [(L, e) for L in I.loops for e in L.effects if e.target == name]
+    if not [e for e in ev_list if e.op not in ("reserve",)] and len(loops_d) == 1 and loops_d[0][1].op == "push_back" and loops_d[0][0].step == 1 and loops_d[0][0].cond_op == "<":
+        L, e = loops_d[0]
+        pieces, shape_ok = [(sp.Integer(0), sp.expand(L.hi - L.lo), sp.sympify(e.value).subs(L.var, kk + L.lo))], True
+    else:
+        pieces, shape_ok = content_pieces(I, name, kk, presized=True)
+    if not shape_ok or not pieces:
+        raise Broken("time-point overload of setInitState fills its duration list in a shape this rule does not understand")
+    ok_val = True
+    det = []
+    for lo, hi, val in pieces:
+        want = T[kk + 1] - T[kk]
+        good = sym.is_zero(sp.sympify(val) - want)
+        if not good and sym.is_zero(hi - lo - 1):
+            good = sym.is_zero(sp.sympify(val).subs(kk, lo) - want.subs(kk, lo))
+        ok_val = ok_val and good
+        det.append("durations[%s..%s) = %s" % (lo, hi, sp.sstr(val)))
+    ps = sorted(pieces, key=lambda p_: sp.sympify(p_[0]).subs(size, 1000))
+    ok_tile = sym.is_zero(ps[0][0]) and sym.is_zero(ps[-1][1] - (size - 1)) and all(sym.is_zero(a[1] - b[0]) for a, b in zip(ps, ps[1:]))
+    chk.ob("C09-R2", "%s setInitState(time points): duration k = point[k+1] - point[k] for every k in [0, #points-1)" % cls, ok_val and ok_tile, loc(f3), "; ".join(det),
+           construct=cls + "/setInitState-timepoints/durations")
+    chk.ob("C09-R2", "%s setInitState(time points): start time = first point" % cls, sym.is_zero(sp.sympify(cap["start"]) - T[0]), loc(f3), "start = %s" % sp.sstr(cap["start"]),
+           construct=cls + "/setInitState-timepoints/start")
 
 
 def is_copy_of_member(f, name, sc):
